@@ -56,7 +56,26 @@ async fn listen_inner(
 ) {
     let manager = Arc::new(SpeedtestManager::default());
     loop {
-        match tokio::time::timeout(timeout, codec.listen()).await {
+        // `listen()` is not cancellation safe (a future dropped in the middle of a write loses
+        // the rest of the chunk being written), so the same future is polled again after
+        // a timeout which is ignored because of the requests still in progress
+        let result = {
+            let listen = codec.listen();
+            tokio::pin!(listen);
+            loop {
+                match tokio::time::timeout(timeout, listen.as_mut()).await {
+                    Err(_elapsed) if manager.running_tests_num.load(Ordering::Acquire) > 0 => {
+                        log_id!(
+                            trace,
+                            log_id,
+                            "Ignoring timeout due to there are some uncompleted tests"
+                        )
+                    }
+                    x => break x,
+                }
+            }
+        };
+        match result {
             Ok(Ok(Some(x))) => {
                 let request_headers = x.request().request();
                 log_id!(
@@ -111,11 +130,6 @@ async fn listen_inner(
                 log_id!(debug, log_id, "Session error: {}", e);
                 break;
             }
-            Err(_elapsed) if manager.running_tests_num.load(Ordering::Acquire) > 0 => log_id!(
-                trace,
-                log_id,
-                "Ignoring timeout due to there are some uncompleted tests"
-            ),
             Err(_elapsed) => {
                 log_id!(debug, log_id, "Closing due to timeout");
                 if let Err(e) = codec.graceful_shutdown().await {
